@@ -33,6 +33,13 @@ def run(ctx):
     from contracts import c01_std as STD
 
     STD.verify_all(ctx, repo, "C19")
+    from contracts import c15_trace as TRC
+
+    for fn_, h_, cov_ in ((TRC.BURNIN, TRC.h_burnin, ["burnin.none", "burnin.after", "burnin.iteration"]), (TRC.MAIN, TRC.h_main_iteration, ["recorded", "skipped", "iteration"])):
+        lgb = TRC.Log()
+        rb = TRC.registry(lgb)
+        rb.log = lgb
+        dsl.verify(ctx, repo, rb, "C19.run", fn_, h_, expect_covers=cov_, max_paths=6000)
     dsl.verify(ctx, repo, GB.registry(), "C19.dp", GB.DPS + ".sample_tree", GB.h_dp, expect_covers=GB.DP_COVERS)
     dsl.verify(ctx, repo, GB.registry(), "C19.prg", GB.PRG + ".sample_tree", GB.h_prg, expect_covers=GB.PRG_COVERS)
     dsl.verify(ctx, repo, PM.registry(), "C19.perm", PM.RPD + ".log_count", PM.h_log_count, expect_covers=["top", "inner"])
@@ -52,7 +59,7 @@ def run(ctx):
     ctx.trust(*r2.assumed)
     ctx.trust("option ranges of phyclone.cli.run are the top-level precondition (N >= 1, thresholds and probabilities in [0,1], thin/burnin/num_iters >= 1, alpha > 0, grid >= 11); "
               "--print-freq is not among the options the property quantifies over (i %% print_freq needs print_freq != 0)",
-              "the run loop (_run_burnin, _run_main_sampler), Tree mutators and the retained-path construction are covered by the bounded driver only",
+              "the safety obligations of one arbitrary iteration of _run_burnin and _run_main_sampler are included (their functional posts are C15's); Tree mutators are C06/C07's",
               "finiteness of log_p_one: sum of finitely many finite terms given finite data grids (C05) and alpha >= 1e-10; outlier probability exactly one is stored as 'off' (DESIGN 7.11)")
     ctx.assume("A-REAL: numpy never raises on floating-point edge cases here (log of 0 gives -inf with a warning); such values are excluded by the log-domain obligations")
     ctx.extra["explanation"] = ("Deductive: every index, key, divisor, log argument, assert and empty-sequence draw in the functions under contract of the sampler layer is proved safe "
